@@ -168,8 +168,8 @@ class CallGraph:
                     for m in p.lookup_overrides(bt.cls, f.attr, fn.enclosing_class):
                         if all(c.fn is not m for c in out):
                             out.append(Callee("fn", fn=m))
-                elif isinstance(bt, ClsT) and ft.fn.binds_self:
-                    out = [Callee("fn", fn=ft.fn, via="unbound")]
+                elif isinstance(bt, ClsT) and ft.fn.binds_self and not ft.fn.is_classmethod:
+                    out = [Callee("fn", fn=ft.fn, via="unbound")]      # Class.method(obj, ...): self is passed explicitly
             return out
         if isinstance(ft, Ext):
             return [Callee("ext", name=ft.name)]
